@@ -79,6 +79,97 @@ def _cand(res, clause, what, payload, witness=None):
     res.candidate(clause, what, dict(payload, clause=clause, values=witness or {}), sub=clause)
 
 
+class _MapProbe:
+    """hands the library its own copy of a symbol map and checks afterwards that the copy still has the same keys (same
+    objects, same order) and values: 'extra symbols in the map are ignored', not consumed"""
+
+    def __init__(self, m, string_keys=False):
+        self.given = {(str(k) if string_keys else k): v for k, v in m.items()}
+        self.snap = list(self.given.items())
+
+    def problems(self):
+        now = list(self.given.items())
+        if len(now) != len(self.snap) or any(a[0] is not b[0] or a[1] is not b[1] for a, b in zip(now, self.snap)):
+            return f"the symbol map passed to bind was modified: {[(str(k), str(v)) for k, v in self.snap]} -> {[(repr(k), str(v)) for k, v in now]}"
+        return None
+
+    def check(self, res, p):
+        res.ob(1)
+        bad = self.problems()
+        if bad:
+            _cand(res, "map-unchanged", bad[:300], p)
+        else:
+            res.ob(0, 1, "concrete-structure")
+
+
+CPLX_MAPS = {
+    "x->cplx": {x: 0.5 + 0.25j},
+    "x,y->cplx": {x: -0.75 + 0.5j, y: 0.25 - 1.0j},
+    "x->I*num": {x: 0.5 * sympy.I},
+}
+
+
+def _cplx_bad(gname, enames, mname):
+    """bind a complex number, evaluate; vs evaluate symbolically, substitute the same number. Ground numeric comparison."""
+    g = make_gate(gname, enames)
+    m = CPLX_MAPS[mname]
+    rest = {x: 0.375, y: -0.625, z: 1.125, w: 0.25}  # symbols the map leaves free get the same real numbers on both sides
+    A = np.array(sympy.Matrix(g.bind(dict(m)).matrix).subs(rest).evalf(), dtype=complex)
+    B = np.array(sympy.Matrix(g.matrix).subs(m, simultaneous=True).subs(rest).evalf(), dtype=complex)
+    if A.shape != B.shape:
+        return f"shape {A.shape} vs {B.shape}"
+    d = float(np.abs(A - B).max())
+    return None if d <= 1e-9 * (1 + float(np.abs(B).max())) else f"max|delta|={d:.3g}"
+
+
+def _w_cplx(res, p):
+    res.d["ground_instances"] += 1
+    res.d["instances"] -= 1
+    res.ob(1)
+    bad = _cplx_bad(p["gate"], p["exprs"], p["map"])
+    if bad:
+        _cand(res, "bind-then-evaluate-complex", f"{p['gate']}({p['exprs']}) with {p['map']}: bind(map).matrix != matrix.subs(map): {bad}", p)
+    else:
+        res.ob(0, 1, "ground-numeric")
+
+
+def _w_reuse(res, p):
+    """ONE map object is bound to several circuits in turn (the documented 'one symbols map for all circuits' use): every
+    binding must equal the binding with a pristine copy of the map."""
+    from orquestra.quantum.circuits import Circuit
+
+    m = MAPS[p["map"]]
+    probe = _MapProbe(m, string_keys=bool(p.get("string_keys")))
+    res.nontrivial()
+    for i, (ops, n) in enumerate(p["circuits"]):
+        c = Circuit([make_gate(g, e)(*tuple(q)) for g, e, q in ops], n_qubits=n)
+        bound = c.bind(probe.given)
+        want_params = [tuple(subs_param(q, m) for q in op.params) for op in c.operations]
+        got_params = [tuple(op.params) for op in bound.operations]
+        P = Prover(res, unit=QUARTER)
+
+        def b(F, got_params=got_params, want_params=want_params):
+            out = []
+            if len(got_params) != len(want_params) or any(len(a) != len(bb) for a, bb in zip(got_params, want_params)):
+                raise Refuse("operation/parameter count changed")
+            for j, (ga, wa) in enumerate(zip(got_params, want_params)):
+                for k, (a, bb) in enumerate(zip(ga, wa)):
+                    out.append((f"op{j}.param{k}", F.alg.sub(F.t(a), F.t(bb))))
+            return out
+
+        r = P.prove_zero("reuse", b, "shared-map-binding", sub=f"shared-map-binding#{i}")
+        fv = first_violation(r)
+        if fv:
+            _cand(res, "shared-map-binding", f"circuit #{i} bound with a map object that was used for {i} earlier binding(s): parameter {fv[0]} is not the substituted expression", p, fv[1])
+        res.ob(1)
+        if list(bound.free_symbols) != expected_free_symbols_circuit(bound.operations) or [str(s) for s in bound.free_symbols] != [str(s) for s in expected_free_symbols_circuit(Circuit([op.replace_params(wp) for op, wp in zip(c.operations, want_params)], n_qubits=n).operations)]:
+            _cand(res, "shared-map-binding", f"circuit #{i} bound with a re-used map object keeps free symbols {bound.free_symbols}", p)
+        else:
+            res.ob(0, 1, "concrete-structure")
+    probe.check(res, p)
+    res.sample({"shared map": ser_map(m), "circuits": len(p["circuits"])})
+
+
 def _prove_mat(res, P, A_, B_, clause, what, payload):
     def b(F):
         X, Y = F.mat(A_), F.mat(B_)
@@ -103,7 +194,7 @@ def work(item):
     except AttributeError:
         pass
     try:
-        {"gate": _w_gate, "circ": _w_circ, "refuse": _w_refuse, "nongate": _w_nongate}[kind](res, p)
+        {"gate": _w_gate, "circ": _w_circ, "refuse": _w_refuse, "nongate": _w_nongate, "cplx": _w_cplx, "reuse": _w_reuse}[kind](res, p)
     except Refuse as e:
         res.ob(1)
         res.inconc(f"translation refused: {e}")
@@ -115,7 +206,9 @@ def _w_gate(res, p):
     m = MAPS[p["map"]]
     res.nontrivial()
     before = tuple(g.params)
-    bound = g.bind(m)
+    mm = _MapProbe(m)
+    bound = g.bind(mm.given)
+    mm.check(res, p)
     # structure: params substituted one by one, free symbols exact, receiver untouched
     res.ob(1)
     want_params = tuple(subs_param(q, m) for q in before)
@@ -165,7 +258,9 @@ def _w_circ(res, p):
     c = Circuit(ops, n_qubits=p.get("n"))
     m = MAPS[p["map"]]
     res.nontrivial()
-    bound = c.bind(m)
+    mm = _MapProbe(m)
+    bound = c.bind(mm.given)
+    mm.check(res, p)
     res.ob(1)
     probs = []
     if bound.n_qubits != c.n_qubits:
@@ -282,6 +377,19 @@ def instances(tier, seed):
             if tier == "quick" and not stable_pick((str(ops), mname), 2, seed) and mname not in ("x->2v0", "total"):
                 continue
             items.append(("circ", {"ops": ops, "n": n, "map": mname, "second": rng.choice([None, "x,y->num", "only-w", "x->v0"]), "label": f"{[(g, e, q) for g, e, q in ops]} n={n} map={mname}"}))
+    # complex values (ground): plain, daggered, controlled-daggered gates
+    for gname, es in [("RX", ["x"]), ("RY|dagger", ["x"]), ("PHASE|dagger", ["x+y"]), ("U3|c1|dagger", ["x", "y", "num"]), ("PHASE|dagger|c2", ["2x"]), ("CG", ["x", "y"]), ("RZ", ["x*y"]), ("XX|c1", ["x/2"]), ("U3", ["y", "x", "x"])]:
+        for mname in CPLX_MAPS:
+            items.append(("cplx", {"gate": gname, "exprs": es, "map": mname, "label": f"{gname}({','.join(es)}) map={mname}"}))
+    # one map object shared by several bindings
+    seqs = [
+        [([("RX", ["x"], (0,))], None), ([("RY", ["y"], (0,)), ("RZ", ["x+y"], (1,))], None), ([("U3", ["x", "y", "z"], (0,))], 2)],
+        [([("RZ", ["z"], (1,))], 2), ([("RX", ["x"], (0,)), ("XX", ["x*y"], (0, 1))], None)],
+        [([("RX", ["num"], (0,))], None), ([("PHASE|dagger", ["y-x"], (0,))], None), ([("RY", ["x"], (0,))], None)],
+    ]
+    for si, seq in enumerate(seqs):
+        for mname in ("total", "superfluous", "x,y->num", "x,y->v"):
+            items.append(("reuse", {"circuits": [[[list(o) for o in ops], n] for ops, n in seq], "map": mname, "label": f"shared map {mname} over circuit sequence #{si}"}))
     for gid in ["X|pow(2)", "RX(0.3)|pow(0.5)", "H|exp", "T|dagger|pow(3)", "RZ(0.2)|exp", "X|pow(2)|c1"]:
         items.append(("refuse", {"gid": gid, "label": gid}))
     for es in (["x", "y", "num", "x+y"], ["2x", "-x"], ["x*y", "z", "y", "x", "num", "x/2", "y-x", "x"]):
@@ -323,10 +431,10 @@ def replay(data):
     p = {k: v for k, v in inp.items() if k not in ("clause", "values")}
     p.setdefault("label", "replay")
     try:
-        kind = "gate" if "gate" in p else "circ" if "ops" in p else "refuse" if "gid" in p else "nongate"
+        kind = "cplx" if clause == "bind-then-evaluate-complex" else "reuse" if "circuits" in p else "gate" if "gate" in p else "circ" if "ops" in p else "refuse" if "gid" in p else "nongate"
         if kind == "circ":
             p["ops"] = [(g, e, tuple(q)) for g, e, q in p["ops"]]
-        {"gate": _w_gate, "circ": _w_circ, "refuse": _w_refuse, "nongate": _w_nongate}[kind](r, p)
+        {"gate": _w_gate, "circ": _w_circ, "refuse": _w_refuse, "nongate": _w_nongate, "cplx": _w_cplx, "reuse": _w_reuse}[kind](r, p)
         cands = [c for c in r.d["candidates"] if c["clause"] == clause]
         if not cands:
             return False, "no violation on re-execution"
